@@ -105,7 +105,7 @@ def xstream_content(entries, w):
 
 
 def assemble(revs, root, junk=b'', infra_start=None, w=(1, 4, 2), upto=None, entry0=True, prev_delta=0,
-             version=b'1.5'):
+             version=b'1.5', self_cycle=False):
     """revs: list of Rev; returns list over prefixes k=1..len(revs) of dict(bytes, layout_sx, hdr).
     All offsets are relative to the header (the first %PDF-), as lopdf's reader measures them.
     infra_start: first object number used for object-stream containers and xref streams."""
@@ -165,6 +165,9 @@ def assemble(revs, root, junk=b'', infra_start=None, w=(1, 4, 2), upto=None, ent
         style = r.style
         if style == 'table' and any(e[0] == 'c' for e in ents.values()):
             style = 'hybrid'
+        if prev is None and self_cycle and style == 'table':
+            # a Prev cycle: the oldest section names itself (the reader must stop, `already_seen`)
+            trailer.append((b'Prev', ('i', len(body))))
         if style == 'table':
             xoff = len(body)
             trailer = [(b'Size', ('i', maxid + 1))] + trailer
